@@ -1,4 +1,4 @@
-"""C15 (solver part) -- solver objects are reusable; calls do not leak state.
+"""C15 -- solver and preconditioner objects are reusable; calls do not leak state.
 
 Stages
   1. scripted call sequences on ONE solver object (different right-hand sides / initial guesses /
@@ -18,6 +18,20 @@ Stages
      tolerance => 0 iterations and x unchanged.
   4. LGMRES with always_reset = false is the documented exception: differences are counted as
      information (evidence), not failures.
+  5. objects other than a bare Krylov solver (props/reuse_cases.py, harness/drv_reuse*.cpp, protocol in
+     harness/reuse_common.hh): scripted histories on ONE object vs a FRESH object per command, exact (vq::Q) and
+     double (printed exactly, nan/inf as tokens), for amg<builtin, C, R> (4 coarsenings x {damped_jacobi, spai0,
+     gauss_seidel, ilu0, chebyshev}; configurations that leave the coarsest level RELAXED although direct_coarse is
+     requested (max_levels reached / coarse_enough not met) or not requested, direct coarse solve, ncycle 2,
+     pre_cycles 0/1/2; commands apply / cycle / rebuild (allow_rebuild on: ok; off or wrong size: throws) / dump),
+     make_solver<amg, S> for the 8 solvers (solve, solve with another system matrix, a skew system that makes BiCGStab
+     throw, zero right-hand side, NaN-containing right-hand side in the double build, make_solver::apply),
+     relaxation::as_preconditioner<R> for 9 relaxations (bare and inside make_solver), solver::skyline_lu,
+     deflated_solver (solve / apply / project), preconditioner::cpr and cpr_drs (+ partial_update),
+     schur_pressure_correction (two inner-solver variants, types 1 and 2, inside fgmres/bicgstab/gmres or bare),
+     make_block_solver (block size 2).  "Fresh object for command k" = constructed from the same arguments and
+     brought up to date with the LAST successful rebuild / partial_update before k.  Constructor matrix,
+     per-command matrices and right-hand sides are compared before/after every command.
 """
 import random
 from fractions import Fraction as F
@@ -38,12 +52,22 @@ TRUSTED_BASE = [
     "bicgstab: r,p,v,s,t,rh,T; richardson: r,s; gmres/fgmres: H,s,cs,sn,r,v[],z[]; lgmres: the same + outer_v (ring of slot "
     "indices) and outer_v_data[]; bicgstabl: Rt,X,B,T,R[],U[] (MZa,MZb,Y0,YL,qr scratch are written completely before "
     "they are read in every polynomial part and are local in the model); idrs: M,f,c,r,v,t,x_s,r_s,G[],U[] + constant shadow space P[])",
+    "objects (stage 5): harness/reuse_common.hh, reuse_amg.hh, drv_reuse*.cpp; the comparison is implementation (one object) vs "
+    "implementation (fresh objects), no model run; the link to the models is C02 (amg apply sequences vs Amg.v), C16 (skyline), "
+    "C06 (chebyshev) and stages 1-1b (solvers); state-passing solver models cg_sp .. fgmres_sp (ReuseProofs2/3.v) are proved equal "
+    "to the extracted pure models for a stateless preconditioner, they are not extracted themselves",
 ]
 ASSUMPTIONS = [
     "C15-A1 (junk independence) is proved for every Scalar record whose zero satisfies is_zero 0 = true (IEEE floats do); "
     "bicgstabl / idrs additionally assume that the workspace vectors cleared at the start of a call (X, U[0]; G[i], U[i]) have "
     "the allocated length n in both objects (the constructor allocates them so)",
-    "amg / skyline_lu / deflated_solver reuse: other groups (C02/C16)",
+    "object theorems (C15_skyline_reuse, C15_chebyshev_*, C15_amg_reuse_*, C15_make_solver_reuse*): the allocated lengths of the "
+    "scratch members (skyline y; chebyshev p, r; amg f, u, t per level; solver workspaces) are hypotheses (the constructors "
+    "allocate them so); make_solver theorems cover amg x {cg, richardson, bicgstab, gmres, fgmres} for the modelled smoothers "
+    "(hier_wf); lgmres / bicgstabl / idrs with a STATEFUL preconditioner, ILU / Chebyshev smoothers inside the hierarchy of the "
+    "make_solver theorems, deflated_solver, cpr, schur_pressure_correction and make_block_solver are covered by the tie only",
+    "a rebuild that throws half way (e.g. the new coarse matrix is singular for skyline_lu) leaves a mixed hierarchy: not exercised "
+    "(rebuild commands either succeed or throw in the precondition checks before anything is modified)",
 ]
 TOL10 = F(1, 1024)
 
